@@ -167,6 +167,55 @@ def check_end_to_end(name, py, col, model_fail):
         col.add("C19:roundtrip-drops-field:proto-name", name, "%r: %s: %s" % (name, type(e).__name__, e))
 
 
+_NB_CACHE = {}
+
+
+def check_neighbours(name, py, col):
+    """The key <-> field mapping inside a message that also has fields with RELATED names: a map field called like the
+    name with a scalar sibling `<name>_value` (both declaration orders), and a sibling `<name>_` / `<name>_1`.  Every field
+    must survive to_dict -> from_dict in both casings."""
+    for variant, specs in (
+        ("map-then-sibling", [(py, "map"), (py + "_value", "int"), (py + "_key", "int")]),
+        ("sibling-then-map", [(py + "_value", "int"), (py, "map")]),
+        ("numbered-siblings", [(py, "int"), (py + "_1", "int"), (py + "1", "int")]),
+    ):
+        key = (py, variant)
+        cls = _NB_CACHE.get(key)
+        if cls is None:
+            try:
+                fields = []
+                for i, (fname, kind) in enumerate(specs):
+                    if kind == "map":
+                        fields.append((fname, dict, betterproto.map_field(i + 1, betterproto.TYPE_STRING, betterproto.TYPE_INT32)))
+                    else:
+                        fields.append((fname, int, betterproto.int32_field(i + 1)))
+                if len({f[0] for f in fields}) != len(fields) or not all(_valid(f[0]) and not keyword.iskeyword(f[0]) for f in fields):
+                    _NB_CACHE[key] = False
+                    continue
+                cls = dataclasses.make_dataclass("N", fields, bases=(betterproto.Message,), eq=False, repr=False)
+            except Exception:  # noqa: BLE001
+                cls = False
+            _NB_CACHE[key] = cls
+        if not cls:
+            continue
+        kw = {}
+        for i, (fname, kind) in enumerate(specs):
+            kw[fname] = {"w": 3} if kind == "map" else 10 + i
+        want = cls(**kw)
+        for label, cas in (("camel", betterproto.Casing.CAMEL), ("snake", betterproto.Casing.SNAKE)):
+            try:
+                d = want.to_dict(casing=cas)
+                if len(d) != len(specs):
+                    continue        # two fields share one key in this casing: not a name-mapping question of this check
+                got = cls().from_dict(d)
+                ok = bytes(got) == bytes(want)
+                info = "%r: %s: to_dict(%s) = %r -> from_dict gives %r" % (name, variant, label, d, got)
+            except Exception as e:  # noqa: BLE001
+                ok, info = False, "%r: %s: %s: %s" % (name, variant, type(e).__name__, e)
+            if not ok:
+                col.add("C19:roundtrip-drops-field:related-names:%s:%s" % (variant, label), name, info)
+
+
 def check_name(name, col, e2e):
     fns = (
         ("field", _naming.pythonize_field_name),
@@ -225,6 +274,8 @@ def check_name(name, col, e2e):
         model_fail[label] = None
     if e2e and _valid(py) and not keyword.iskeyword(py):
         check_end_to_end(name, py, col, model_fail)
+        if len(name) <= 3 or "_" in name[1:-1] and len(name) <= 12 and not name.isupper():
+            check_neighbours(name, py, col)
     return outs
 
 
